@@ -17,16 +17,29 @@ PID = "C05"
 META = {
     "ready": True,
     "category": "proof",
-    "technique": "Lean 4 invariant proof over a step-level transition system (all interleavings, any number of threads) + deterministic-schedule correspondence with the real BiasedRc",
-    "level_text": "Theorem rc_safe (SteelVerif/C05/Props.lean): for every schedule - every history of create/clone/drop/move/unique/unwrap/count/register/merge/exit operations by any number of threads and every interleaving of their atomic shared accesses - the model of steel-rc's biased reference counting never accesses the object after the free, frees it at most once and only when no reference is held, and grants exclusive access only to a sole holder. The model is hand-written; it is tied to crates/steel-rc/src/lib.rs on every run by executing the real BiasedRc under cfg(steel_verif) yield points on the same schedules (corpus, all operation-level histories of a given depth, random step-level schedules) and comparing the observable protocol state after every line.",
-    "level_note": "Trusted: Lean kernel (axioms propext, Classical.choice, Quot.sound only), the harness/driver/comparison, sequentially consistent atomics (the code uses Relaxed/AcqRel), atomic reads of the non-atomic owner field, one object per run, no thread-id reuse. Liveness (destroyed eventually) is checked on drained schedules only, not proved.",
+    "technique": "Lean 4 invariant proof over a step-level transition system (all interleavings, any number of threads; safety invariant Inv + liveness invariant Extra; rank-function argument for solo progress) + deterministic-schedule correspondence with the real BiasedRc, including the quiescent-leak observable and the solo step bound",
+    "level_text": "Theorems of SteelVerif/C05/Props.lean about the hand-written step-level model of steel-rc's biased reference counting, for every schedule (every history of create/clone/drop/move/unique/unwrap/count/register/merge/exit operations by any number of threads and every interleaving of their atomic shared accesses). Safety, rc_safe: the object is never accessed after the free, is freed at most once and only when no reference is held, and exclusive access is granted only to a sole holder. Liveness half of 'destroyed exactly once', no_leak_at_quiescence / destroyed_exactly_once (invariant Inv2 = Inv + Extra, preserved by every step: step_inv2): in every reachable state in which every thread is between operations and no counted reference exists (none held, none in flight, none owned by a merge-queue entry) a created object has been freed and its destructor run exactly once (frees = 1, drops = 1). The documented caveat is the decided witness unregistered_owner_parks_forever: an entry parked in QUEUE.unregistered for an owner that never registered is a counted reference (total = 1), the object stays alive with every thread idle until run_explicit_merge runs on the owner thread. No self-livelock, op_completes_solo (invariant Inv3 = Inv2 + LockInv, step_lockInv): from every reachable state and every program counter a thread scheduled alone finishes its operation within 12 of its own steps (compare-exchange loops retry only after interference); guard_holder_is_merging / never_blocked_at_enqueue: the dashmap guard is held exactly by a thread inside run_explicit_merge, and no thread is ever parked at enqueue while it is held, so nothing waits for it; merge_drains: after run_explicit_merge / finish_thread_merge run alone the thread's registered queue (and for run_explicit_merge its unregistered entries) is empty. Tie to crates/steel-rc/src/lib.rs on every run: the real BiasedRc is executed under cfg(steel_verif) yield points on the same schedules (corpus incl. the caveat witness, all operation-level histories of a given depth, random step-level schedules with three drain modes) and the observable protocol state is compared after every line; at every quiescent end of a real run (every thread idle, no reference held, merge queues empty - evaluated on the real trace alone and on the model, which must coincide) the real destructor count and free count must both be 1; every `T run <op>` line runs the model with fuel 12, so a real operation that needs more solo steps than op_completes_solo allows is a trace difference.",
+    "level_note": "Trusted: Lean kernel (axioms propext, Classical.choice, Quot.sound only), the harness/driver/comparison, sequentially consistent atomics (the code uses Relaxed/AcqRel), atomic reads of the non-atomic owner field, one object per run, no thread-id reuse. Liveness is proved as 'quiescent and unreferenced implies destroyed' plus solo progress; it is not a fairness theorem for arbitrary schedulers (a thread that is never scheduled keeps its in-flight reference: total > 0). never_blocked_at_enqueue is a fact about one object: with several objects the real enqueue can wait for the dashmap guard of a run_explicit_merge that works on another object (waiting for a lock, not modelled); the harness reports it as `blocked`, which the check counts (real_blocked_events) and treats as a trace difference. The solo bound 12 is not tight (example_solo_last_drop needs 6).",
 }
 TOUCHING = ("clone", "drop", "unique", "unwrap", "count")
 
 
-def real_trace(sched_lines):
-    rc, out, err = C.run_bin([C.bin_path("c05")], "\n".join(sched_lines) + "\n", timeout=30)
+def real_trace(sched_lines, timeout_ms=None):
+    env = {"C05_TIMEOUT_MS": str(timeout_ms)} if timeout_ms else None
+    rc, out, err = C.run_bin([C.bin_path("c05")], "\n".join(sched_lines) + "\n",
+                             timeout=180 if timeout_ms else 30, env=env)
     return rc, out.splitlines(), err
+
+
+def settle(stats, sched, res):
+    """A `blocked` event is the harness's 2 s answer timeout: under machine load a thread that merely
+    was not scheduled looks the same as one that waits for a lock.  Such a run (and one that crashed
+    after it) is repeated alone with a 20 s limit; only what the repetition shows is judged."""
+    rrc, rtrace, rerr = res
+    if rrc == 0 and not any(l.startswith("blocked") for l in rtrace):
+        return res
+    stats["reruns"] += 1
+    return real_trace(sched, timeout_ms=20000)
 
 
 def norm(line):
@@ -38,6 +51,10 @@ def spec_on_real(sched, real):
     of violated clauses (empty = none observed)."""
     bad = []
     freed_at = None
+    q = real_quiescent_end(sched, real)
+    if q is not None and q != (1, 1):
+        bad.append("quiescent end (every thread idle, no reference held, merge queues empty) with "
+                   "drops=%d freed=%d: the object must have been destroyed exactly once" % q)
     for i, l in enumerate(real):
         m = re.search(r"drops=(\d+) freed=(\d+)", l)
         if not m:
@@ -63,6 +80,34 @@ def spec_on_real(sched, real):
     return bad
 
 
+def real_quiescent_end(sched, real):
+    """The quiescent-leak observable on the real trace alone.  Returns None when the run does not end
+    quiescent (a thread is parked / blocked, a reference is held, a merge queue holds an entry, or no
+    object was created), else (drops, freed) of the last line: S demands (1, 1)
+    (Props.lean: no_leak_at_quiescence / destroyed_exactly_once)."""
+    if not real or len(real) != len(sched):
+        return None
+    parked = {}
+    for s, l in zip(sched, real):
+        toks = s.split()
+        if not toks or toks[0] == "spawn":
+            continue
+        ev = l.split(" ", 1)[0]
+        if ev == "yield" or ev == "blocked":
+            parked[toks[0]] = True
+        elif ev == "done":
+            parked[toks[0]] = False
+    if any(parked.values()):
+        return None
+    last = real[-1]
+    m = re.search(r"w=(\S+) .*drops=(\d+) freed=(\d+) q=(\S+) held=(\S+)", last)
+    if not m or m.group(1) == "-" or m.group(4) != "0,0":
+        return None
+    if any(x not in ("0", "-") for x in m.group(5).split(",")):
+        return None
+    return int(m.group(2)), int(m.group(3))
+
+
 def compare(ctx, schedules, label, stats):
     """Run every schedule on the real code and on the model; classify."""
     drv = C.driver_path("c05driver")
@@ -82,6 +127,7 @@ def compare(ctx, schedules, label, stats):
             cur.append(l)
     model_traces = model_traces[: len(schedules)]
     reals = C.pool_map(real_trace, schedules)
+    reals = [settle(stats, s, r) for s, r in zip(schedules, reals)]
     for idx, (sched, (mtrace, spec), (rrc, rtrace, rerr)) in enumerate(zip(schedules, model_traces, reals)):
         stats["evaluations"] += 1
         stats["lines"] += len(sched)
@@ -91,6 +137,8 @@ def compare(ctx, schedules, label, stats):
         if nontrivial and key not in stats["seen"]:
             stats["seen"].add(key)
         for l in rtrace:
+            if l.startswith("blocked"):
+                stats["blocked"] += 1
             m = re.match(r"yield (\S+)", l)
             if m:
                 stats["sites"][m.group(1)] = stats["sites"].get(m.group(1), 0) + 1
@@ -101,14 +149,38 @@ def compare(ctx, schedules, label, stats):
                    and "underflow=false" in spec and re.search(r"frees=[01] ", spec)
                    and re.search(r"frees=(\d+) drops=\1 ", spec))
         drained = any(l.endswith("run exit") for l in sched[-3:])
-        leak = False
-        if drained and agree:
-            # liveness half of "destroyed exactly once": everything dropped, every thread merged and
-            # exited.  Only owed when the owner's queue could be reached (see Props: destroyed_eventually).
-            m = re.search(r"total=(\d+) alive=(\w+)", spec)
-            if m and m.group(1) == "0" and m.group(2) == "true" and "frees=0" in spec:
-                leak = True
+        stats["run_lines"] += sum(1 for l in sched if " run " in l)
+        # liveness half of "destroyed exactly once" (Props: no_leak_at_quiescence): at a quiescent end -
+        # every thread idle, no counted reference anywhere - the destructor has run exactly once.
+        # Evaluated twice: on the model's final state and, independently, on the real trace.
+        m = re.search(r"total=(\d+) alive=(\w+) created=(\w+) idle=(\w+) queued=(\d+)", spec)
+        model_q = bool(m and m.group(1) == "0" and m.group(3) == "true" and m.group(4) == "true")
+        real_q = real_quiescent_end(sched, rtrace) if rrc == 0 else None
+        if model_q:
+            stats["quiescent_model"] += 1
+            if not re.search(r"frees=1 drops=1 ", spec) or m.group(2) != "false":
+                spec_ok = False
                 stats["leaks"] += 1
+        if real_q is not None:
+            stats["quiescent_real"] += 1
+            if real_q != (1, 1):
+                stats["leaks"] += 1
+                ctx.violation("C05-%s-%d-leak.txt" % (label, idx),
+                              "# schedule (feed to harness/c05 and to c05driver)\n" + "\n".join(sched) +
+                              "\n# the real run ends quiescent (every thread idle, no reference held, merge "
+                              "queues empty) with drops=%d freed=%d; the property demands exactly one "
+                              "destruction\n# real last line: %s\n# model verdict : %s\n"
+                              % (real_q[0], real_q[1], rtrace[-1], spec))
+                continue
+        if agree and model_q != (real_q is not None):
+            # the two evaluations of "quiescent" must coincide when the traces agree
+            stats["pending_disagreements"].append(
+                ("C05-%s-%d.txt" % (label, idx),
+                 "# schedule\n" + "\n".join(sched) + "\n# quiescence observable differs: model %s, real %s\n"
+                 "# model verdict: %s\n# real last line: %s\n" % (model_q, real_q, spec, rtrace[-1:])))
+        if drained and agree and m and m.group(4) == "true" and m.group(1) != "0" and m.group(2) == "true":
+            # the documented caveat (Props: unregistered_owner_parks_forever) or references still held
+            stats["drained_not_quiescent"] += 1
         if agree and spec_ok:
             stats["agree"] += 1
             continue
@@ -140,6 +212,7 @@ def gen(mode, *args):
 
 def run(ctx):
     stats = {"evaluations": 0, "lines": 0, "agree": 0, "disagree": 0, "leaks": 0, "seen": set(),
+             "quiescent_model": 0, "quiescent_real": 0, "drained_not_quiescent": 0, "run_lines": 0, "blocked": 0, "reruns": 0,
              "sites": {}, "samples": [], "pending_disagreements": []}
     pr = C.prove(ctx, "C05", ["c05driver"])
     ok, log = C.build_harness(ctx, ["c05"])
@@ -214,7 +287,14 @@ def run(ctx):
         "traces_agreeing": stats["agree"],
         "traces_disagreeing": stats["disagree"],
         "yield_sites_hit": stats["sites"],
-        "drained_schedules_not_freed": stats["leaks"],
+        "quiescent_ends_checked": stats["quiescent_real"],
+        "quiescent_ends_model": stats["quiescent_model"],
+        "quiescent_ends_not_destroyed_exactly_once": stats["leaks"],
+        "drained_ends_with_parked_queue_entry_or_held_reference": stats["drained_not_quiescent"],
+        "real_blocked_events": stats["blocked"],
+        "runs_repeated_with_long_answer_limit": stats["reruns"],
+        "solo_bound": 12,
+        "solo_bound_checked_run_lines": stats["run_lines"],
         "axioms": pr.get("axioms", {}),
         "proof_failures": ["%s: %s" % f for f in pr["failed"]],
     }
